@@ -1558,3 +1558,127 @@ Proof.
            | |- context[match ?c with _ => _ end] => destruct c; cbn
            end; auto.
 Qed.
+
+Lemma mon_step_rejected m x : mon_step m x rejected = m.
+Proof. unfold mon_step. destruct (m_viol m); reflexivity. Qed.
+
+Lemma ready_obs_ok e s o : free_obj e s = Some o -> o_st (snd (step e (OReady s))) = 0.
+Proof. intros F. unfold step, step_gen. rewrite F. reflexivity. Qed.
+
+Lemma step_objs_next e x s : x = OReady s \/ x = OSuspend s \/ x = OGet s -> objs (fst (step e x)) = objs e.
+Proof.
+  intros [ -> | [ -> | -> ] ]; unfold step, step_gen; destruct (free_obj e s); try reflexivity.
+  destruct (snd (get_value_lk (pq e) (s_h s0) (s_mode s0))); reflexivity.
+Qed.
+
+Lemma live_obj_objs e e' s : objs e' = objs e -> live_obj e' s = live_obj e s.
+Proof. intros E. unfold live_obj. rewrite E. reflexivity. Qed.
+
+Theorem stepx_R e m x os : R e m ->
+  R (fst (stepx e x)) (fst (feed m x (snd (stepx e x) ++ os))) /\ snd (feed m x (snd (stepx e x) ++ os)) = os.
+Proof.
+  intros HR.
+  assert (PRIM : R (fst (step e x)) (fst (feed1 m x ([snd (step e x)] ++ os))) /\
+                 snd (feed1 m x ([snd (step e x)] ++ os)) = os).
+  { cbn [app]. rewrite feed1_cons. cbn [fst snd]. split; [apply step_R; exact HR|reflexivity]. }
+  destruct x; try exact PRIM; clear PRIM; unfold stepx, stepx_gen;
+    change (step_gen advance_suspend_lk get_value_lk) with step.
+  - (* OBlock *)
+    destruct (free_obj e s) as [o|] eqn:F.
+    2:{ cbn [fst snd app feed is_ok rejected o_st Z.eqb negb]. rewrite feed1_cons, mon_step_rejected. split; [exact HR|reflexivity]. }
+    pose proof (free_live _ _ _ F) as L.
+    set (r1 := step e (OReady s)).
+    assert (R1 : R (fst r1) (mon_step m (OReady s) (snd r1))) by (apply step_R; exact HR).
+    assert (OK1 : o_st (snd r1) = 0) by (apply (ready_obs_ok _ _ _ F)).
+    destruct (o_a (snd r1) =? 1) eqn:A1.
+    { set (g := step (fst r1) (OGet s)). cbn [fst snd app]. unfold feed, is_ok, ret1. rewrite OK1, A1. cbn [Z.eqb negb].
+      rewrite feed1_cons. cbn [fst snd]. rewrite feed1_cons. cbn [fst snd].
+      split; [apply R_bump; apply step_R; exact R1|reflexivity]. }
+    set (r2 := step (fst r1) (OReady s)).
+    assert (R2 : R (fst r2) (mon_step (mon_step m (OReady s) (snd r1)) (OReady s) (snd r2))) by (apply step_R; exact R1).
+    destruct (o_a (snd r2) =? 1) eqn:A2.
+    { set (g := step (fst r2) (OGet s)). cbn [fst snd app]. unfold feed, is_ok, ret1. rewrite OK1, A1. cbn [Z.eqb negb].
+      rewrite feed1_cons. cbn [fst snd]. rewrite feed1_cons. cbn [fst snd]. rewrite A2. rewrite feed1_cons. cbn [fst snd].
+      split; [apply R_bump; apply step_R; exact R2|reflexivity]. }
+    set (r3 := step (fst r2) (OSuspend s)).
+    assert (R3 : R (fst r3) (mon_step (mon_step (mon_step m (OReady s) (snd r1)) (OReady s) (snd r2)) (OSuspend s) (snd r3)))
+      by (apply step_R; exact R2).
+    assert (L3 : live_obj (fst r3) s = Some o).
+    { assert (O3 : objs (fst r3) = objs e).
+      { unfold r3. rewrite (step_objs_next _ _ s) by auto. unfold r2. rewrite (step_objs_next _ _ s) by auto.
+        unfold r1. apply (step_objs_next _ _ s). auto. }
+      rewrite (live_obj_objs _ _ s O3). exact L. }
+    destruct (o_a (snd r3) =? 1) eqn:A3.
+    { cbn [fst snd app]. unfold feed, is_ok, ret1. rewrite OK1, A1. cbn [Z.eqb negb].
+      rewrite feed1_cons. cbn [fst snd]. rewrite feed1_cons. cbn [fst snd]. rewrite A2. rewrite feed1_cons. cbn [fst snd]. rewrite A3.
+      split; [apply R_set_blk; assumption|reflexivity]. }
+    set (g := step (fst r3) (OGet s)). cbn [fst snd app]. unfold feed, is_ok, ret1. rewrite OK1, A1. cbn [Z.eqb negb].
+    rewrite feed1_cons. cbn [fst snd]. rewrite feed1_cons. cbn [fst snd]. rewrite A2. rewrite feed1_cons. cbn [fst snd]. rewrite A3.
+    rewrite feed1_cons. cbn [fst snd].
+    split; [apply step_R; exact R3|reflexivity].
+  - (* OBlockFin *)
+    destruct (live_obj e s) as [o|] eqn:L.
+    2:{ cbn [fst snd app feed]. rewrite feed1_cons, mon_step_rejected. split; [exact HR|reflexivity]. }
+    destruct (s_blk o && match r_awt (rget (regs (pq e)) (s_h o)) with None => true | Some _ => false end).
+    2:{ cbn [fst snd app feed]. rewrite feed1_cons, mon_step_rejected. split; [exact HR|reflexivity]. }
+    cbn [fst snd app feed]. rewrite feed1_cons. cbn [fst snd].
+    split; [apply step_R; apply R_set_blk; assumption|reflexivity].
+  - (* OPoll *)
+    destruct (free_obj e s) as [o|] eqn:F.
+    2:{ cbn [fst snd app feed is_ok rejected o_st Z.eqb negb]. rewrite feed1_cons, mon_step_rejected. split; [exact HR|reflexivity]. }
+    set (r1 := step e (OReady s)).
+    assert (R1 : R (fst r1) (mon_step m (OReady s) (snd r1))) by (apply step_R; exact HR).
+    assert (OK1 : o_st (snd r1) = 0) by (apply (ready_obs_ok _ _ _ F)).
+    destruct (o_a (snd r1) =? 1) eqn:A1.
+    + set (g := step (fst r1) (OGet s)). cbn [fst snd app]. unfold feed, is_ok, ret1. rewrite OK1, A1. cbn [Z.eqb negb].
+      rewrite feed1_cons. cbn [fst snd]. rewrite feed1_cons. cbn [fst snd].
+      split; [apply step_R; exact R1|reflexivity].
+    + cbn [fst snd app]. unfold feed, is_ok, ret1. rewrite OK1, A1. cbn [Z.eqb negb].
+      rewrite feed1_cons. cbn [fst snd]. split; [exact R1|reflexivity].
+Qed.
+
+(* ------------------------------------------------------------------ whole runs *)
+Theorem run_R l : forall e m, R e m -> R (snd (run_from e l)) (mon_run m l (fst (run_from e l))).
+Proof.
+  induction l as [|x l IH]; intros e m HR; [exact HR|].
+  unfold run_from in *. cbn [run_gen fst snd mon_run]. fold (stepx e x).
+  destruct (stepx_R e m x (fst (run_gen advance_suspend_lk get_value_lk (fst (stepx e x)) l)) HR) as (R1 & E1).
+  rewrite E1. apply IH. exact R1.
+Qed.
+
+Lemma Inv0 mn mx : cfg_ok_b mn mx = true -> Inv (tst0 mn mx) (mon0 mn mx).
+Proof.
+  intros C. unfold cfg_ok_b in C.
+  assert (GN : forall (A : Type) (s : nat), @get A [] s = None) by (intros A s; unfold get; destruct s; reflexivity).
+  assert (LN : forall s, live_obj (tst0 mn mx) s = None) by (intros s; unfold live_obj, tst0; cbn [objs]; rewrite GN; reflexivity).
+  constructor; unfold tst0, mon0, pubq0; cbn [pq objs nawt palive regs next_free qd qpos closed minl maxl m_log m_closed m_subs m_min m_max].
+  - constructor; cbn [regs next_free qd qpos closed minl maxl]; try (unfold zlen; cbn; lia).
+    + unfold HALF, zlen. cbn. lia.
+    + unfold win. exists 0%nat. reflexivity.
+  - split; reflexivity.
+  - reflexivity.
+  - exists []. apply (fl_nil []).
+  - split; [constructor|]. intros a [].
+  - intros s. rewrite !GN. split; reflexivity.
+  - intros s o r G0. rewrite GN in G0. discriminate.
+  - intros s o r L. fold (pubq0 mn mx) in L. fold (tst0 mn mx) in L. rewrite LN in L. discriminate.
+  - intros s1 s2 o1 o2 L. fold (pubq0 mn mx) in L. fold (tst0 mn mx) in L. rewrite LN in L. discriminate.
+  - intros h U. unfold rget in U. destruct h; discriminate.
+Qed.
+
+Lemma dec_enc o : dec_obs (encode_obs o) = o.
+Proof. destruct o; reflexivity. Qed.
+
+(* the monitor's judgement on the model's own trace is `good`, for every case file *)
+Theorem oracle_accepts_model ops : pub_oracle ops (pub_run ops) = true.
+Proof.
+  unfold pub_oracle, pub_run, pub_run_gen. destruct ops as [|c t]; [reflexivity|].
+  destruct (cfg_of c) as [[mn mx]|] eqn:CF.
+  - rewrite map_map. rewrite (map_ext _ (fun o => o) dec_enc), map_id.
+    assert (C : cfg_ok_b mn mx = true).
+    { unfold cfg_of in CF. destruct c as [|a [|b [|? ?]]]; try discriminate.
+      destruct (cfg_ok_b a (if b =? 0 then unlimited else b)) eqn:E; [|discriminate]. injection CF as <- <-. exact E. }
+    assert (R0 : R (tst0 mn mx) (mon0 mn mx)) by (split; [reflexivity|right; apply Inv0; exact C]).
+    apply (run_R (map decode t) _ _ R0).
+  - cbn [map length]. rewrite map_length. apply Nat.eqb_refl.
+Qed.
